@@ -132,6 +132,8 @@ def run_scenario(sc, observe="all"):
             cl = clients.SimulatedClient(transaction_limit=c.get("limit"), best_price_execution=c.get("bpe", True),
                                          simulated_full_match=c.get("full_match", False), min_bet_validation=c.get("min_val", True),
                                          username="client%d" % len(cls))
+            if c.get("commission") is not None:
+                cl.commission_base = c["commission"]
             cls.append(cl)
         fw = FlumineSimulation(client=cls[0])
         for cl in cls[1:]:
@@ -177,7 +179,7 @@ def run_scenario(sc, observe="all"):
                 now = datetime.datetime.utcnow()
                 rec.calls.append([self.idx, cb, market.market_id, market_book.publish_time_epoch, ms(now)])
                 if observe == "all":
-                    snap = [order_snapshot(o, name_of(o)) for o in market.blotter]
+                    snap = [dict(order_snapshot(o, name_of(o)), client=next((i for i, c in enumerate(cls) if c is o.client), -1)) for o in market.blotter]
                     ctx = {}
                     for (mid, sel, hc), rc in self._invested.items():
                         if mid == market.market_id:
@@ -349,7 +351,7 @@ def run_scenario(sc, observe="all"):
                 rec.events.append(["cleared_orders_meta", [name_of(o) for o in event.event]])
             def _process_cleared_markets(self, event):
                 for cm in event.event.orders:
-                    rec.events.append(["cleared_market", cm.market_id, cm.profit, cm.commission, cm.bet_count])
+                    rec.events.append(["cleared_market", cm.market_id, cm.profit, cm.commission, cm.bet_count, ms(datetime.datetime.utcnow())])
             def _process_closed_market(self, event):
                 rec.events.append(["closed_market", event.event.market_id])
             def _process_cleared_orders(self, event):
